@@ -186,12 +186,12 @@ class _Res:
 
 
 def _tlc_task(model):
-    """One TLC model in a pool worker (4 at a time, 4 TLC workers each): summary + dumped states, scratch removed here."""
+    """One TLC model in a pool worker (all at once, 2-4 TLC workers each): summary + dumped states, scratch removed here."""
     import shutil
     name, module, cfg, consts = model
     work = tlc.scratch('c17m_')
     try:
-        r = tlc.run(module, cfg, consts=consts, dump=True, timeout=3000, workdir=work, workers=4)
+        r = tlc.run(module, cfg, consts=consts, dump=True, timeout=3000, workdir=work, workers=2 if model[1] != 'AnnotateRuns' else 4)
         out = _Res()
         for k in ('distinct', 'generated', 'depth', 'wall', 'coverage', 'violated'):
             setattr(out, k, getattr(r, k))
@@ -201,10 +201,15 @@ def _tlc_task(model):
         shutil.rmtree(work, ignore_errors=True)
 
 
+VACUOUS = []
+
+
 def _need(cond, what):
-    """Vacuity guard: a family that did not exercise what it exists for is a machinery failure, never a pass."""
+    """Vacuity guard: a family that did not exercise what it exists for is a machinery failure, never a pass.  The guards
+    count what the generators PLANNED (never what the implementation answered) and are raised at the end of the run, and
+    only if nothing was rejected: a violation is never turned into exit 2."""
     if not cond:
-        raise tlc.MachineryError('vacuous: ' + what)
+        VACUOUS.append(what)
 
 
 def run(tier, seed, ev, vd):
@@ -228,6 +233,7 @@ def run(tier, seed, ev, vd):
                       'which version strings make run_dssp warn is not judged (outside the statement); runs with a supported, '
                       'an unsupported and a decorated version string must all annotate alike']
     quick = tier == 'quick'
+    del VACUOUS[:]
     import time
     t0 = time.time()
     timing = ev.extra.setdefault('timing_s', {})
@@ -238,7 +244,7 @@ def run(tier, seed, ev, vd):
     cli_pool = mp.Pool(tlc.NCPU, maxtasksperchild=1)        # the command-line runs start first and run next to everything else
     cli_async = cli_pool.map_async(X.cli_case, cli_cases, chunksize=1)
     pool_kinds = X.POOL_QUICK if quick else X.POOL_QUICK + X.POOL_MORE
-    row_kinds = X.ROW_POOL if not quick else [k for k in X.ROW_POOL if k not in ('rS', 'rh', 'near1')]
+    row_kinds = X.ROW_POOL if not quick else [k for k in X.ROW_POOL if k not in ('rS', 'rh', 'near1', 'r_17')]
     models = [
         ('TAB AnnotateSeq', 'AnnotateSeq', SEQ_CFG, {'MaxMols': '3' if quick else '4', 'MaxRes': '3', 'MaxSeqExtra': '1'}),
         ('TAB HelixRewrite {H,C}', 'HelixRewrite', HEL_CFG, {'Alphabet': '{"H","C"}', 'MaxLen': '11' if quick else '14'}),
@@ -246,20 +252,21 @@ def run(tier, seed, ev, vd):
          {'Alphabet': tlc.tlaval.to_tla(set(FULL_ALPHABET if not quick else ['H', 'G', 'E', 'T', 'C', '1'])), 'MaxLen': '4' if quick else '5'}),
         # segment strings: runs of every length at the ends / in the middle, adjacent segments of different helix letters
         ('TAB AnnotateRuns ' + ('two' if quick else 'three') + ' segments, full alphabet', 'AnnotateRuns', SEG_CFG,
-         {'Alphabet': tlc.tlaval.to_tla(set(FULL_ALPHABET)), 'MaxLen': '0', 'SegLens': '1..9' if quick else '{1,2,3,4,5,7,8,9}',
+         {'Alphabet': tlc.tlaval.to_tla(set(FULL_ALPHABET)), 'MaxLen': '0', 'SegLens': '1..9' if quick else '{1,3,4,5,7,8,9}',
           'MaxSegs': '2' if quick else '3'}),
-        ('TAB AnnotateRuns ' + ('four segments {H,G,C}' if quick else 'five segments {H,I,C}'), 'AnnotateRuns', SEG_CFG,
+        ('TAB AnnotateRuns ' + ('four segments {H,G,C}' if quick else 'four segments {H,I,C}'), 'AnnotateRuns', SEG_CFG,
          {'Alphabet': '{"H","G","C"}' if quick else '{"H","I","C"}', 'MaxLen': '0',
-          'SegLens': '{1,3,4,5,8}' if quick else '{1,2,4,5,7,8,11}', 'MaxSegs': '4' if quick else '5'}),
+          'SegLens': '{1,4,5,8}' if quick else '{1,2,4,5,7,8,11}', 'MaxSegs': '4'}),
         ('TAB DsspFile free product', 'DsspFile', X.FILE_CFG,
          {'Pool': tlc.tlaval.to_tla(set(pool_kinds)), 'Prefixes': '{<<>>}', 'MaxLines': '4' if quick else '5'}),
         ('TAB DsspFile rows after a table line', 'DsspFile', X.FILE_CFG,
-         {'Pool': tlc.tlaval.to_tla(set(row_kinds)), 'Prefixes': '{<<"hdr","table">>, <<"hdr","near2","hist","table">>}',
+         {'Pool': tlc.tlaval.to_tla(set(row_kinds)), 'Prefixes': '{<<"hdr","table">>, <<"hdr","near2","hist","table">>}' if quick else
+          '{<<"hdr","table">>, <<"hdr","near2","hist","table">>, <<"near4","tot","table">>}',
           'MaxLines': '3' if quick else '4'}),
         ('TAB DsspRoute', 'DsspRoute', X.ROUTE_CFG,
-         {'MaxMols': '3', 'MaxRes': '2' if quick else '3', 'Shapes': tlc.tlaval.to_tla(set(X.SHAPES))}),
+         {'MaxMols': '3', 'MaxRes': '2' if quick else '3', 'Shapes': tlc.tlaval.to_tla(set(X.SHAPES_QUICK if quick else X.SHAPES))}),
     ]
-    with mp.Pool(4) as pool:
+    with mp.Pool(len(models)) as pool:
         done = pool.map(_tlc_task, models, chunksize=1)
     got = {}
     for (name, module, _, _), res in zip(models, done):
@@ -279,7 +286,7 @@ def run(tier, seed, ev, vd):
         o1 = pool.map(_seq_chunk, [(c, seed * 31 + i) for i, c in enumerate(common.chunks(s1, tlc.NCPU * 2))])
         o2 = pool.map(_hel_chunk, [(c, seed * 37 + i) for i, c in enumerate(common.chunks(s2 + s3 + s4, tlc.NCPU * 2))])
         o5 = pool.map(X._file_chunk, [(c, table) for c in common.chunks(s5, tlc.NCPU * 2)])
-        o6 = pool.map(X._route_chunk, [(c, table, seed * 41 + i, 40 if quick else 25)
+        o6 = pool.map(X._route_chunk, [(c, table, seed * 41 + i, 80 if quick else 25)
                                        for i, c in enumerate(common.chunks(s6, tlc.NCPU * 4))])
     timing['replays'] = round(time.time() - t0, 1)
     nonsorting = 0
@@ -355,34 +362,37 @@ def run(tier, seed, ev, vd):
     fam['cli_inconclusive'] = [{'argv': e['argv'], 'why': e['why'][:200]} for e in inconclusive][:10]
     conclusive = [e for e in cli_events if e['kind'] != 'inconclusive']
     fam['cli_ss'] = sum(1 for e in conclusive if e['kind'] == 'cli' and e['mode'] == 'ss')
+    fam['cli_mdtraj'] = sum(1 for e in conclusive if e.get('route') == 'mdtraj')
     fam['cli_collagen'] = sum(1 for e in conclusive if e['kind'] == 'cli' and e['mode'] == 'collagen')
     fam['cli_dssp'] = sum(1 for e in conclusive if e['kind'] == 'dssp')
-    fam['cli_errors_expected'] = sum(1 for e in conclusive if e['err'])
+    fam['cli_errors_expected'] = sum(1 for e in conclusive if e['planned'] == 'defect')
     fam['cli_nonsorting'] = sum(1 for e in conclusive if e.get('nonsorting'))
     fam['ss_header_present'] = sum(1 for e in conclusive if e.get('wrote') and e['hdr'] != ['-'])
     fam['ss_header_absent'] = sum(1 for e in conclusive if e.get('wrote') and e['hdr'] == ['-'])
     fam['dssp_saved_outputs_compared'] = sum(1 for e in conclusive if e['kind'] == 'dssp' and e['saved'])
-    _need(len(inconclusive) * 4 <= len(cli_events) and fam['cli_ss'] >= 8 and fam['cli_collagen'] >= 2 and fam['cli_dssp'] >= 4
+    _need(len(inconclusive) * 4 <= len(cli_events) and fam['cli_ss'] >= 6 and fam['cli_collagen'] >= 2 and fam['cli_dssp'] >= 4
           and fam['cli_errors_expected'] >= 3 and fam['cli_nonsorting'] >= 5,
           'command-line family: %r' % ({k: v for k, v in fam.items() if k.startswith('cli')},))
     judge_batch(batch, ev, vd)
     timing['judged'] = round(time.time() - t0, 1)
     kinds = {}
     for e in batch:
-        key = e['kind'] + ('/err' if e.get('err') else '')
+        key = e['kind'] + ('/defect' if e.get('planned') == 'defect' or (e['kind'] == 'seq' and e['err']) else '')
         kinds[key] = kinds.get(key, 0) + 1
     fam['judged_events'] = kinds
     fam['dssp_events_nonsorting'] = sum(1 for e in batch if e['kind'] == 'dssp' and e.get('nonsorting'))
     fam['seq_events_nonsorting'] = sum(1 for e in batch if e['kind'] == 'seq' and e.get('nonsorting'))
-    _need(kinds.get('file', 0) >= 20 and kinds.get('file/err', 0) >= 10 and kinds.get('dssp', 0) >= 50 and kinds.get('dssp/err', 0) >= 20
+    _need(kinds.get('file', 0) >= 20 and kinds.get('file/defect', 0) >= 10 and kinds.get('dssp', 0) >= 50 and kinds.get('dssp/defect', 0) >= 20
           and fam['dssp_events_nonsorting'] >= 30 and fam['seq_events_nonsorting'] >= 100, 'judged families %r' % (fam,))
+    if VACUOUS and not vd.violations and not vd.reported_known:
+        raise tlc.MachineryError('vacuous: ' + '; '.join(VACUOUS))
 
 
 def X_is_caller(m):
     return m['protein'] and m['haspos']
 
 
-HARNESS_ONLY = ('nonsorting', 'how', 'errtype', 'argv', 'chains', 'rc', 'exc', 'wrote')     # never shown to TLC
+HARNESS_ONLY = ('nonsorting', 'how', 'errtype', 'argv', 'chains', 'rc', 'exc', 'wrote', 'planned', 'extra', 'seed', 'version', 'route')     # never shown to TLC
 
 
 def judge_batch(batch, ev, vd):
@@ -465,7 +475,8 @@ def replay(sc):
         print('real AnnotateDSSP with the scripted executable ->', {k: e[k] for k in ('err', 'errtype', 'aa', 'cg', 'ncalls', 'seen')})
         print('expected', sc.get('expected'), sc.get('why', ''))
     else:
-        case = {'chains': sc['chains'], 'seed': 0, 'mode': sc.get('mode', 'dssp'), 'ss': ''.join(sc.get('seq', [])), 'extra': []}
+        case = {'chains': sc['chains'], 'seed': sc.get('seed', 0), 'mode': sc.get('route', sc.get('mode', 'dssp')), 'ss': ''.join(sc.get('seq', [])),
+                'extra': sc.get('extra', []), 'version': sc.get('version', X.VERSIONS[0])}
         if kind == 'dssp':
             case['calls'] = sc['plan']
         print('command: martinize2', sc.get('argv'))
